@@ -1,7 +1,7 @@
 #!/usr/bin/env bash
 # tools/benign.sh : every patch under /verif/benign is a behaviour-preserving refactoring; all three quick checks must stay green (exit 0).
 HERE="$(cd "$(dirname "${BASH_SOURCE[0]}")/.." && pwd)"
-for P in "$HERE"/benign/*.patch; do
+for P in "$HERE"/benign/${BENIGN_GLOB:-*}.patch; do
   SCR="$(mktemp -d /tmp/ben-XXXXXX)"; mkdir -p "$SCR/repo"
   cp -a /repo/python /repo/testdata /repo/gherkin-languages.json "$SCR/repo/"
   (cd "$SCR/repo" && git init -q . && git apply "$P") || { echo "$(basename $P): patch does not apply"; rm -rf "$SCR"; continue; }
